@@ -7,6 +7,7 @@ HARNESS = os.path.join(VERIF, 'harness')
 NCPU = os.cpu_count() or 4
 
 import props as PROPS
+import fuzz as FUZZ
 
 SAN_ENV = {
     'ASAN_OPTIONS': 'exitcode=86:abort_on_error=0:detect_leaks=1:max_allocation_size_mb=1024:allocator_may_return_null=0:detect_stack_use_after_return=0:handle_abort=0',
@@ -48,7 +49,7 @@ def tree_files():
 
 
 def harness_headers():
-    return glob.glob(HARNESS + '/*.h') + glob.glob(HARNESS + '/ref/*.h') + glob.glob(HARNESS + '/common/*.h') + [os.path.join(HARNESS, 'ubsan_ignore.txt')]
+    return glob.glob(HARNESS + '/*.h') + glob.glob(HARNESS + '/ref/*.h') + glob.glob(HARNESS + '/common/*.h') + glob.glob(HARNESS + '/fuzz/*.h') + [os.path.join(HARNESS, 'ubsan_ignore.txt')]
 
 
 class Builder:
@@ -179,6 +180,7 @@ def write_replay(prop, unit, f, tag):
     if 'seq' in f: body['seq'] = f['seq']
     if 'sweep' in f: body['sweep'] = f['sweep']
     if 'file' in f: body['file'] = f['file']
+    if 'input_hex' in f: body['input_hex'] = f['input_hex']
     hid = hashlib.sha256(json.dumps(body, sort_keys=True).encode()).hexdigest()[:10]
     p = os.path.join(d, '%s-%s.json' % (tag, hid))
     with open(p, 'w') as fo: json.dump(body, fo, indent=1)
@@ -213,6 +215,8 @@ def check_property(pid, tier, seed, replay_only=None):
     violations = []; known_hit = {}; notes = []; seen_kinds = set(); crashed_props = set()
     workdir = os.path.join(builder.dir, 'run-%s-%s-%d' % (pid, tier, os.getpid())); os.makedirs(workdir, exist_ok=True)
 
+    def is_fuzz(u): return u.get('kind') == 'libfuzzer'
+
     def report_failure(unit, f, confirmed_path=None):
         k = match_known(known, pid, unit['name'], f)
         if k is not None:
@@ -243,6 +247,20 @@ def check_property(pid, tier, seed, replay_only=None):
             log('bad replay file %s: %s' % (rf, e)); return 2
         u = unit_by_name.get(body.get('unit'))
         if u is None: log('replay file %s names unknown unit %s' % (rf, body.get('unit'))); continue
+        if is_fuzz(u):
+            tmpin = os.path.join(workdir, 'replay-input-%d' % replayed)
+            with open(tmpin, 'wb') as fo: fo.write(bytes.fromhex(body.get('input_hex', '')))
+            nfail, kind = FUZZ.replay_input(bins[u['name']], tmpin, SAN_ENV, times=1)
+            replayed += 1; failed = nfail > 0; so = 'kind=%s' % kind
+            exp = body.get('expect', 'pass')
+            if replay_only is not None: print('replay %s: %s %s' % (rf, 'FAIL' if failed else 'pass', kind or ''))
+            if failed:
+                if exp.startswith('known:'):
+                    kid = exp.split(':', 1)[1]
+                    k = next((k for k in known if k['id'] == kid and k.get('status') == 'known'), None)
+                    if k is not None: known_hit.setdefault(kid, k); continue
+                violations.append((rf, dict(kind=kind or body.get('kind', 'replay'), desc=body.get('desc', ''), detail='')))
+            continue
         rc, so, se, _ = run_proc([bins[u['name']], '--replay', rf, '--isolate', '--tier', tier, '--cpu', str(u.get('cpu', 10))] + u.get('args', []), 600)
         replayed += 1
         failed = (rc == 1 and 'REPLAY-FAIL' in so) or rc not in (0, 1)
@@ -262,7 +280,9 @@ def check_property(pid, tier, seed, replay_only=None):
 
     # ---- generated search --------------------------------------------------------------------
     procs = []
+    fuzz_units = [u for u in units if is_fuzz(u)]
     for u in units:
+        if is_fuzz(u): continue
         cfg = u['tiers'][tier]
         shards = cfg.get('shards', 1)
         for sh in range(shards):
@@ -273,9 +293,12 @@ def check_property(pid, tier, seed, replay_only=None):
             cmd += u.get('args', []) + cfg.get('args', [])
             procs.append((u, sh, cmd, out, crumb, cfg.get('timeout', 1500)))
     results = []
+    fuzz_results = []
     with cf.ThreadPoolExecutor(max_workers=NCPU) as ex:
+        ffuts = [ex.submit(FUZZ.run_unit, u, bins[u['name']], tier, seed, workdir, SAN_ENV) for u in fuzz_units]
         futs = [ex.submit(run_proc, p[2], p[5]) for p in procs]
         for p, fu in zip(procs, futs): results.append((p, fu.result()))
+        for u, fu in zip(fuzz_units, ffuts): fuzz_results.append((u, fu.result()))
 
     coverage_units = {}; total_eval = 0; total_distinct = 0; samples = []; rules = []; labels = {}; excluded = {}; exhaustive_parts = []; inconclusive = []
     hash_files = {}
@@ -348,8 +371,20 @@ def check_property(pid, tier, seed, replay_only=None):
                 report_failure(u, f)
     for uname, hf in hash_files.items():
         total_distinct += union_hashes(hf)
+    for u, fr in fuzz_results:
+        coverage_units['%s/libfuzzer' % u['name']] = dict(evaluations=fr['evaluations'], nontrivial=fr['nontrivial'], discarded=0, failed_cases=len(fr['failures']), sweep=False, seeds=fr['seeds'])
+        total_eval += fr['evaluations']; total_distinct += fr['distinct']
+        for l, n in fr['labels'].items(): labels['%s:%s' % (u['name'], l)] = n
+        for s in fr['samples'][:2]: samples.append('%s: %s' % (u['name'], s))
+        inconclusive.extend(fr['inconclusive'])
+        if u.get('rule'): rules.append('%s: %s' % (u['name'], u['rule']))
+        for f in fr['failures']:
+            if f.get('fatal'):
+                log(f.get('detail', '')); log('unit %s: %s' % (u['name'], f['kind'])); return 2
+            report_failure(u, f)
     # rules
     for u in units:
+        if is_fuzz(u): continue
         rc, so, se, _ = run_proc([bins[u['name']], '--list'], 60)
         for line in so.splitlines():
             parts = line.split('\t')
@@ -402,6 +437,7 @@ def main(argv):
         try: bins = b.build_units(us)
         except RuntimeError as e: log(str(e)); return 2
         for u in us:
+            if u.get('kind') == 'libfuzzer': continue
             rc, so, se, _ = run_proc([bins[u['name']], '--list'], 120)
             if rc != 0: log('self-test of %s failed: %s %s' % (u['name'], so[-500:], se[-1500:])); return 2
         print('setup ok: %d units built for tree %s' % (len(us), b.tree)); return 0
